@@ -51,9 +51,13 @@ def main(argv):
     ap.add_argument("--tier", default=None)
     ap.add_argument("--replay", default=None)
     ap.add_argument("--setup", action="store_true")
+    ap.add_argument("--selftest", action="store_true")
     a = ap.parse_args(argv)
     if a.setup:
         return setup()
+    if a.selftest:
+        from . import selftest
+        return selftest.run()
     if not a.prop:
         ap.error("property id required")
     tier = common.tier_from(a.tier)
